@@ -307,6 +307,15 @@ class PlugImpl(object):
                 self.tags.add('p-repeat')
         elif k == 'plist':
             r = L.say('scheduler list')
+            # a long list is paged by the reply machinery: fetch the rest with `more` (Misc)
+            for _ in range(40):
+                if not (r and re.search(r'\(\d+ more messages?\)\x02?\s*$', r[-1])):
+                    break
+                r[-1] = re.sub(r'\s*\x02?\(\d+ more messages?\)\x02?\s*$', '', r[-1])
+                nxt = L.say('more')
+                if not nxt:
+                    break
+                r += nxt
             reply = classify(r)
             if reply != 'notloaded':
                 keys = list_keys(r)
